@@ -105,7 +105,10 @@ theorem lex_eq (h : RawOk code raw) (fc : Bool) :
 /-- 3b. the kept tokens are in strictly increasing source order: any earlier kept token has a
 strictly smaller (line, column) than any later one.  `hne` (every token that is not of type
 `Text`/`Whitespace` has a non-empty value) is part of the lexer contract and is checked at run
-time; `hne_needed` shows it cannot be dropped. -/
+time; `hne_needed` shows it cannot be dropped.  (`hne` restricts the lexer PARAMETER, like
+`RawOk`, not the input text: the property quantifies over texts, so this is not a `_partial`
+theorem.  That the seven Pygments lexers satisfy `RawOk` and `hne` is not proved anywhere - it is
+the contract recorded in DESIGN.md 5 and checked per input by the correspondence run.) -/
 theorem kept_strictly_increasing (h : RawOk code raw)
     (hne : ∀ t ∈ raw, t.kind ≠ 6 → t.val ≠ []) (fc : Bool) :
     (lex code raw fc).Pairwise Tok.Before := by
